@@ -56,6 +56,105 @@ class RetryDriver(hlib.Driver):
 
 
 
+# ---------------------------------------------------------------------------------------------- waiting: at quiescence, never after a sleep
+# Observations are taken at QUIESCENCE (`quiesce`) or when a logical condition holds (`wait_until`, `join`) - never after a fixed sleep or a
+# short bounded wait whose expiry would be read as "did not happen".  A deadline only ends a wait for something that never comes: 20 s until
+# the implementation has shown once that it really stalls, ~4 s afterwards (so that machine load cannot trip it, and a stuck mutation does
+# not blow the time budget).  T3 of `send_and_waitfor_response` is LOGICAL on tapped rigs: the harness fires it (`Tap.expire_waiting`).
+WAIT_FIRST, WAIT_LATER = 20.0, 4.0
+STALLS = [0]
+STALL_LOG = []
+
+
+def _stalled():
+    import traceback
+    STALLS[0] += 1
+    fr = traceback.extract_stack(limit=4)[:-2]
+    STALL_LOG.append(" <- ".join(f"{f.name}:{f.lineno}" for f in reversed(fr)))
+
+
+def deadline() -> float:
+    return WAIT_FIRST if STALLS[0] == 0 else WAIT_LATER
+
+
+def waiting(limit) -> bool:
+    """loop guard: True while the deadline `limit` (time.time() based) has not passed; its expiry is recorded as a stall"""
+    if time.time() < limit:
+        return True
+    _stalled()
+    return False
+
+
+def wait_until(cond) -> bool:
+    end = None
+    spins = 0
+    while not cond():
+        spins += 1
+        time.sleep(0 if spins < 200 else 0.0003)
+        if end is None:
+            end = time.monotonic() + deadline()
+        elif time.monotonic() > end:
+            _stalled()
+            return False
+    return True
+
+
+def finish(rig, thread) -> bool:
+    """let a caller of send_and_waitfor_response come back: everything fed so far is dispatched (quiescence), then - if it still waits -
+    its T3 runs out; -> False if it does not return even then"""
+    rig.quiesce()
+    rig.tap.expire_waiting()
+    return join(thread)
+
+
+def wait_sent(rig) -> bool:
+    """the request is on the wire and its caller is inside response_queue.get()"""
+    return wait_until(lambda: bool(rig.tap.waiting_callers()))
+
+
+def join(thread) -> bool:
+    """wait for a thread that is expected to finish; False (a stall) if it does not"""
+    return wait_until(lambda: not thread.is_alive())
+
+
+class Quiet:
+    """mixin: quiescence of the protocol threads of `self.p` (receiver pass / dispatcher call wrapped with a busy counter)"""
+
+    def watch_threads(self):
+        self._busy = 0
+        self._busy_lock = threading.Lock()
+        th = self.p._thread
+
+        def wrap(orig):
+            def run(*a):
+                with self._busy_lock:
+                    self._busy += 1
+                try:
+                    return orig(*a)
+                finally:
+                    with self._busy_lock:
+                        self._busy -= 1
+            return run
+
+        th._receiver_target = wrap(th._receiver_target)
+        th._dispatcher_target = wrap(th._dispatcher_target)
+
+    def is_quiet(self) -> bool:
+        th = self.p._thread
+        return not (self._busy or queue.Queue.qsize(th._dispatch_queue) or th._dispatcher_thread_trigger.is_set()
+                    or th._receiver_thread_trigger.is_set() or not self.p._send_queue.empty())
+
+    def quiesce(self, *_a, **_k) -> bool:
+        """nothing in flight: no protocol thread inside library code, triggers clear, queues empty, receive buffer unchanged - looked at twice"""
+        def look():
+            if not self.is_quiet():
+                return False
+            n = len(self.p._receive_buffer)
+            time.sleep(0)
+            return self.is_quiet() and len(self.p._receive_buffer) == n
+        return wait_until(look)
+
+
 # ---------------------------------------------------------------------------------------------- in-memory connection
 class MemConn(secsgem.common.Connection):
     """outermost boundary: what the protocol writes is parsed into frames and handed to `hook` (in the writer's thread)"""
@@ -143,6 +242,8 @@ class Tap:
         self.n_arrivals = 0
         self.tl = threading.local()
         self.dropped = set()
+        self.real_timeouts = False  # True: response_queue.get really waits T3 (only for the baton schedule that needs the wall clock)
+        self.expired = {}  # caller index -> Event: the harness fires that caller's T3
 
     # ---- helpers
     def caller(self):
@@ -153,6 +254,20 @@ class Tap:
         if ident not in self.disp:
             self.disp[ident] = len(self.disp)
         return self.disp[ident]
+
+    def expire_waiting(self, only=None):
+        """T3 runs out for the callers that are waiting for their reply now (or for the given caller indices)"""
+        with self.lock:
+            # every transaction that has no result yet - also one whose caller has not reached response_queue.get() yet (its send_message is
+            # just returning): it will find its T3 expired as soon as it looks and nothing is in its queue
+            who = [c for c, st in self.pc.items() if st not in ("got", "done")] if only is None else list(only)
+            for c in who:
+                self.expired.setdefault(c, threading.Event()).set()
+        return who
+
+    def waiting_callers(self):
+        with self.lock:
+            return [c for c, st in self.pc.items() if st == "sent"]
 
     def reset_log(self):
         with self.lock:
@@ -170,7 +285,20 @@ class Tap:
 
             def get(self, block=True, timeout=None):
                 try:
-                    m = super().get(block, timeout)
+                    if tap.real_timeouts or not block or timeout is None:
+                        m = super().get(block, timeout)
+                    else:
+                        # logical T3: expires when the harness says so (`expire_waiting`), not when the machine is slow
+                        with tap.lock:
+                            ev = tap.expired.setdefault(self.owner, threading.Event())
+                        hard = time.monotonic() + 300
+                        while True:
+                            try:
+                                m = super().get(True, 0.0005)
+                                break
+                            except queue.Empty:
+                                if ev.is_set() or time.monotonic() > hard:
+                                    raise
                 except queue.Empty:
                     with tap.lock:
                         tap.log.append(("o", self.owner))
@@ -231,13 +359,11 @@ class Tap:
             def qsize(self):
                 size = super().qsize()
                 action = self.when_seen_empty
-                if size == 0 and action is not None:
+                if size == 0 and action is not None and threading.current_thread() in tap.disp_threads:  # only for the consumer
                     self.when_seen_empty = None
                     action()
-                    end = time.time() + 2.0
-                    while super().qsize() == 0 and time.time() < end:  # let the receive path queue (and trigger) before the consumer goes on
-                        time.sleep(0.003)
-                    time.sleep(0.01)
+                    # the receive path has queued the block AND set the trigger before the consumer goes on (a legal schedule)
+                    wait_until(lambda: queue.Queue.qsize(self) > 0 and p._thread._dispatcher_thread_trigger.is_set())
                 return size
 
             def put(self, item, block=True, timeout=None):
@@ -371,11 +497,13 @@ class Tap:
 
 
 # ---------------------------------------------------------------------------------------------- endpoint under test
-class Rig:
+class Rig(Quiet):
     def __init__(self, t3=2.0):
         self.settings = Settings(connect_mode=secsgem.hsms.HsmsConnectMode.PASSIVE, t3=t3)
         self.p = secsgem.hsms.HsmsProtocol(self.settings)
+        self.p._linktest_timeout = 10 ** 6  # no linktest transaction of the library's own timer thread in the middle of a scenario
         self.c = self.p._connection
+        self.watch_threads()
         self.tap = Tap(self.p)
         self.tap.install()
         self.events = []  # ("start"|"end", system, tag) from our own message_received handler
@@ -397,7 +525,7 @@ class Rig:
             self.events.append(("start", h.system, tag_of(h)))
         bf = self.block_first
         if bf is not None and bf[0] == h.system:
-            bf[1].wait(bf[2])
+            bf[1].wait(120)  # released by the harness (the bound only keeps a forgotten gate from living forever)
         with self.ev_lock:
             self.events.append(("end", h.system, tag_of(h)))
 
@@ -408,8 +536,8 @@ class Rig:
     def connect(self):
         self.c.on_connected({"source": self.c})
         self.feed(HsmsMessage(HsmsSelectReqHeader(77), b""))
-        limit = time.time() + 3
-        while time.time() < limit:
+        limit = time.time() + deadline()
+        while waiting(limit):
             if self.p.connection_state.current == secsgem.hsms.connection_state_machine.ConnectionState.CONNECTED_SELECTED:
                 return True
             time.sleep(0.002)
@@ -418,19 +546,6 @@ class Rig:
     def disconnect(self):
         self.c.on_disconnecting({"source": self.c})
         self.c.on_disconnected({"source": self.c})
-
-    def quiesce(self, want_events=None, limit=2.0):
-        """wait until the dispatch queue is drained and handlers are back (bounded)"""
-        end = time.time() + limit
-        while time.time() < end:
-            with self.ev_lock:
-                starts = sum(1 for e in self.events if e[0] == "start")
-                ends = sum(1 for e in self.events if e[0] == "end")
-            if self.p._thread._dispatch_queue.qsize() == 0 and starts == ends and (want_events is None or ends >= want_events):
-                time.sleep(0.01)
-                return True
-            time.sleep(0.003)
-        return False
 
 
 REPLY_ONLY = False  # set by the probe: the endpoint routes only replies (even function) to waiting callers
@@ -465,7 +580,7 @@ class SerialMem(secsgem.common.Connection):
             return b
 
 
-class SecsIRig:
+class SecsIRig(Quiet):
     """real SecsIProtocol (equipment role); the harness plays the host on the line: ENQ, wait EOT, block, wait ACK"""
 
     def __init__(self, t3=45):
@@ -479,6 +594,7 @@ class SecsIRig:
         self.secsi = secsgem.secsi
         self.p = secsgem.secsi.SecsIProtocol(S(port="X", device_type=secsgem.common.DeviceType.EQUIPMENT, t3=t3))
         self.c = self.p._connection
+        self.watch_threads()
         self.tap = Tap(self.p)
         self.tap.install()
         self.events = []
@@ -495,9 +611,9 @@ class SecsIRig:
         self.c.on_disconnected({"source": self.c})
 
     def _await(self, byte, limit=2.0):
-        end = time.time() + limit
+        end = time.time() + deadline()
         seen = b""
-        while time.time() < end:
+        while waiting(end):
             seen += self.c.take()
             if bytes([byte]) in seen:
                 return True
@@ -520,16 +636,16 @@ class SecsIRig:
     def take_outgoing_block(self, limit=2.0):
         """play the receiver for ONE block the endpoint sends: wait ENQ, answer EOT, read the block, answer ACK; -> decoded block or None"""
         from secsgem.secsi.message import SecsIBlock
-        end = time.time() + limit
+        end = time.time() + deadline()
         buf = b""
-        while time.time() < end and bytes([0x05]) not in buf:
+        while bytes([0x05]) not in buf and waiting(end):
             buf += self.c.take()
             time.sleep(0.002)
         if bytes([0x05]) not in buf:
             return None
         buf = buf[buf.index(bytes([0x05])) + 1:]
         self.c.on_data({"source": self.c, "data": bytes([0x04])})
-        while time.time() < end:
+        while waiting(end):
             buf += self.c.take()
             if buf and len(buf) >= buf[0] + 3:
                 break
@@ -540,7 +656,6 @@ class SecsIRig:
         self.c.on_data({"source": self.c, "data": bytes([0x06 if blk is not None else 0x15])})
         return blk
 
-    quiesce = Rig.quiesce
 
 
 
@@ -593,7 +708,7 @@ def part_counter(cx: Ctx):
         res.disagree("sched line mapping", "get_next_system_counter", "lines '+= 1' and 'return'", str(exc))
         return
     inc_line, ret_line = texts["self._system_counter += 1"][0], texts["return self._system_counter"][0]
-    baton = sched.Baton({sched.code_of(f): None}, stall=0.01, deadline=5.0)
+    baton = sched.Baton({sched.code_of(f): None}, stall=0.01, deadline=90.0)
     baton.describe(f)
     if hasattr(p, "_system_counter_lock"):
         p._system_counter_lock = baton.lock(p._system_counter_lock)
@@ -684,7 +799,7 @@ def part_request_schedules(cx: Ctx):
             rig.feed(data_msg(h.system, h.stream, h.function + 1))
 
     rig.c.hook = reply_now
-    baton = sched.Baton({sched.code_of(f): linenos}, stall=0.02, deadline=8.0)
+    baton = sched.Baton({sched.code_of(f): linenos}, stall=0.02, deadline=90.0)
     baton.describe(f)
 
     pending = []
@@ -755,7 +870,8 @@ def part_request_schedules(cx: Ctx):
             res.traces_validated += 1
             ans = hlib.strip_branch(ans)
             m = parse_model(ans)
-            got = None if m is None else sorted(f"{c[1]}/{c[2]}" for c in m["callers"])
+            mine = {w.split("/")[0] for w in want}
+            got = None if m is None else sorted(f"{c[1]}/{c[2]}" for c in m["callers"] if c[1] in mine)
             if m is None or got != want or m["delivered"]:
                 res.disagree("send_and_waitfor_response under a line schedule vs Model.Txn", {"case": case, "line": line[:1200]}, ans[:400], want)
 
@@ -784,8 +900,8 @@ def part_scripted(cx: Ctx):
         threads = [threading.Thread(target=call, args=(i,), daemon=True) for i in range(k)]
         for t in threads:
             t.start()
-        limit = time.time() + 2
-        while time.time() < limit and len(rig.c.data_systems()) < k:
+        limit = time.time() + deadline()
+        while waiting(limit) and len(rig.c.data_systems()) < k:
             time.sleep(0.002)
         wire = rig.c.data_systems()
         own = {fn: sysid for (sysid, _st, fn) in wire}
@@ -821,24 +937,24 @@ def part_scripted(cx: Ctx):
             rig.feed(m)
             if rng.chance(1, 2):
                 time.sleep(0.002)
+        rig.quiesce()  # everything the peer sent so far has been dispatched: who has a reply has it
+        rig.tap.expire_waiting()  # T3 runs out for the others (fates "missing" / "late")
         for t in threads:
-            t.join(t3 + 1.5)
+            join(t)
         hung = [i for i, t in enumerate(threads) if t.is_alive()]
-        # late replies: well after the timeout
+        # late replies: after the timeout, when the callers have returned
         late = [i for i in range(k) if fates[i] == "late"]
         if late and not hung:
-            time.sleep(0.05)
             for i in late:
                 m = data_msg(ids[i], 2, 2 * i + 2)
                 rig.feed(m)
                 unsol.append((ids[i], tag_of(m.header)))
-        rig.quiesce(want_events=None, limit=1.5)
-        time.sleep(0.02)
+        rig.quiesce()
         res.count(("scripted", k, tuple(fates), tuple(script)), sample={"part": "scripted", "callers": k, "fates": fates, "script": script} if sc < 2 else None)
         for f_ in fates:
             res.bump("scripted_reply_fate", f_)
         if hung:
-            res.violate("c06-request-hang", "send_and_waitfor_response did not return within t3 + 1.5 s", case, None, hung)
+            res.violate("c06-request-hang", "send_and_waitfor_response did not return after its reply was dispatched / its T3 ran out", case, None, hung)
             continue
         # oracle
         for i in range(k):
@@ -899,8 +1015,8 @@ def unsolicited_round(cx: Ctx, rig: Rig, case, base, count=3, block=0.3):
         rig.feed(data_msg(s, 6, 11 + i))
         time.sleep(0.02)
     # while the first handler is blocked nothing else may start: wait (bounded) until it runs, then give the others time to misbehave
-    limit = time.time() + 2.0
-    while time.time() < limit:
+    limit = time.time() + deadline()
+    while waiting(limit):
         with rig.ev_lock:
             if any(e[0] == "start" for e in rig.events[n0:]):
                 break
@@ -909,8 +1025,7 @@ def unsolicited_round(cx: Ctx, rig: Rig, case, base, count=3, block=0.3):
     with rig.ev_lock:
         during = list(rig.events[n0:])
     gate.set()
-    rig.quiesce(limit=2.0)
-    time.sleep(0.02)
+    rig.quiesce()
     with rig.ev_lock:
         ev = list(rig.events[n0:])
     rig.block_first = None
@@ -943,13 +1058,13 @@ def sequential_delivery(rig: Rig, systems):
         n0 = len(rig.events)
     for i, s_ in enumerate(systems):
         rig.feed(data_msg(s_, 6, 21 + i))
-        limit = time.time() + 2.0
-        while time.time() < limit:
+        limit = time.time() + deadline()
+        while waiting(limit):
             with rig.ev_lock:
                 if sum(1 for e in rig.events[n0:] if e[0] == "end") > i:
                     break
-            time.sleep(0.003)
-    time.sleep(0.03)
+            time.sleep(0.0005)
+    rig.quiesce()
     with rig.ev_lock:
         ev = list(rig.events[n0:])
     want = [(s_, 6 * 256 + 21 + i) for i, s_ in enumerate(systems)]
@@ -972,13 +1087,13 @@ def reconnect_scenario(cx: Ctx, cycles, cuts):
     for cyc in range(cycles):
         # some traffic, then the link goes down - possibly in the middle of an inbound frame - and comes back
         rig.feed(data_msg(500000 + cyc, 6, 1))
-        rig.quiesce(limit=1.0)
+        rig.quiesce()
         cut = cuts[cyc] if cyc < len(cuts) else 0
         if cut:
             with rig.tap.lock:
                 rig.tap.log.append(("q", cut))
             rig.c.on_data({"source": rig.c, "data": frame[:cut]})
-            time.sleep(0.02)
+            rig.quiesce()
             res.bump("link_lost_after_bytes_of_a_20_byte_frame", cut)
         rig.disconnect()
         time.sleep(0.02)
@@ -993,10 +1108,9 @@ def reconnect_scenario(cx: Ctx, cycles, cuts):
             res.violate("c06-reconnect-delivery", "; ".join(problems) + (f" (link lost {cut} bytes into an inbound frame)" if cut else ""),
                         dict(case, events=ev), want, ev)
             return
-    # grace period for threads told to stop
-    limit = time.time() + 0.6
-    while time.time() < limit and rig.tap.live_dispatchers() > 1:
-        time.sleep(0.01)
+    # threads told to stop (stop token, detected by the probe) end by themselves; without a stop token nothing ever ends them
+    if cx.patched:
+        wait_until(lambda: rig.tap.live_dispatchers() <= 1)
     live = rig.tap.live_dispatchers()
     res.bump("live_dispatcher_threads_after_cycles", f"{cycles}:{live}")
     problems, ev, want = unsolicited_round(cx, rig, case, 600000 + 10 * cycles, count=3, block=1.5)
@@ -1066,20 +1180,17 @@ def part_primary_collision(cx: Ctx):
         out = {}
         t = threading.Thread(target=lambda: out.update(r=rig.p.send_and_waitfor_response(Fn(1, 3))), daemon=True)
         t.start()
-        limit = time.time() + 2
-        while time.time() < limit and not rig.c.data_systems():
-            time.sleep(0.002)
+        wait_sent(rig)
         wire = rig.c.data_systems()
         if not wire:
             res.violate("c06-request-hang", "request never reached the wire", {"part": "primary"})
             continue
         k = wire[0][0]
         rig.feed(data_msg(k, 6, 11, w=True))  # S6F11 W from the peer, same system bytes
-        time.sleep(0.05)
         if variant == "then-reply":
             rig.feed(data_msg(k, 1, 4))  # the real reply S1F4
-        t.join(2.0)
-        rig.quiesce(limit=1.0)
+        finish(rig, t)
+        rig.quiesce()
         with rig.ev_lock:
             starts = [(s_, tg) for (kk, s_, tg) in rig.events if kk == "start"]
         r = out.get("r")
@@ -1123,17 +1234,18 @@ def part_primary_collision(cx: Ctx):
     schedules = {"test,remove,put": [1, 1, 1, 1, 0, 1, 0], "remove,test": [1, 1, 1, 1, 1, 0, 0], "test,put,remove": [1, 1, 1, 1, 0, 0, 1]}
     for name, sch in schedules.items():
         rig = Rig(t3=0.25)
+        rig.tap.real_timeouts = True  # this schedule needs the real queue.get(timeout) to run out
         if not rig.connect():
             return
         k = 7000001
         rig.p._system_counter = k - 1
         baton = sched.Baton({sched.code_of(fr): {rp[ROUTE_TEST][0], rp[ROUTE_PUT][0]}, sched.code_of(fs): {no for v in sp.values() for no in v}},
-                            stall=0.9, deadline=6.0)
+                            stall=0.9, deadline=90.0)
         baton.describe(fr)
         baton.describe(fs)
         block = data_msg(k, 6, 11, w=True).blocks[0]
         out = baton.run([lambda: rig.p._dispatch_block(rig.p, block), lambda: rig.p.send_and_waitfor_response(Fn(1, 3))], sch)
-        rig.quiesce(limit=0.5)
+        rig.quiesce()
         with rig.ev_lock:
             starts = [(s_, tg) for (kk, s_, tg) in rig.events if kk == "start"]
         case = {"part": "primary", "variant": "window", "schedule_name": name, "schedule": sch,
@@ -1173,8 +1285,8 @@ def part_link_loss_in_progress(cx: Ctx):
         systems = [base + i for i in range(count + 1)]
         rig.block_first = (systems[0], gate, 4.0)
         acked = [rig.feed(s_, 6, 31 + 2 * i) for i, s_ in enumerate(systems)]
-        limit = time.time() + 2.0
-        while time.time() < limit:  # N is being handled, the others are queued behind it
+        limit = time.time() + deadline()
+        while waiting(limit):  # N is being handled, the others are queued behind it
             with rig.ev_lock:
                 started = any(e[0] == "start" for e in rig.events)
             if started and rig.p._thread._dispatch_queue.qsize() >= count:
@@ -1182,7 +1294,6 @@ def part_link_loss_in_progress(cx: Ctx):
             time.sleep(0.003)
         queued = rig.p._thread._dispatch_queue.qsize()
         rig.disconnect()
-        time.sleep(0.02)
         rig.connect()
         case = {"part": "link-loss", "variant": "queued-behind-busy-handler", "queued": queued, "acked_on_the_line": acked}
         want = [(s_, 6 * 256 + 31 + 2 * i) for i, s_ in enumerate(systems)]
@@ -1193,15 +1304,12 @@ def part_link_loss_in_progress(cx: Ctx):
 
         # the new link carries traffic again (this is also what wakes a dispatcher thread that waits for its trigger)
         rig.feed(base - 1, 6, 1)
-        limit = time.time() + 1.0
-        while time.time() < limit and len(delivered()) < len(want):
-            time.sleep(0.005)
+        end = time.monotonic() + 0.3  # an opportunity for a second dispatcher, not an assertion: nothing is concluded from its expiry
+        while time.monotonic() < end and len(delivered()) < len(want):
+            time.sleep(0.002)
         gate.set()  # whoever still waits for the busy handler may go on now
-        limit = time.time() + 2.0
-        while time.time() < limit and len(delivered()) < len(want):
-            time.sleep(0.005)
         rig.block_first = None
-        rig.quiesce(limit=1.0)
+        rig.quiesce()  # everything that was queued has been dispatched now, whatever became of it
         got = delivered()
         res.count(("link-loss-queued", count), sample=dict(case, delivered=got))
         res.bump("link_lost_with_messages_queued_behind_a_busy_handler", f"queued={queued}")
@@ -1228,8 +1336,8 @@ def part_link_loss_in_progress(cx: Ctx):
         rig.block_first = (systems[0], gate, 4.0)
         for i, s_ in enumerate(systems):
             rig.feed(data_msg(s_, 6, 31 + 2 * i))
-        limit = time.time() + 2.0
-        while time.time() < limit:
+        limit = time.time() + deadline()
+        while waiting(limit):
             with rig.ev_lock:
                 started = any(e[0] == "start" for e in rig.events)
             if started and rig.p._thread._dispatch_queue.qsize() >= 2:
@@ -1239,7 +1347,6 @@ def part_link_loss_in_progress(cx: Ctx):
         with rig.c.lock:
             n0 = len(rig.c.frames)
         rig.disconnect()
-        time.sleep(0.02)
         selected = rig.connect()
 
         def delivered_h():
@@ -1247,15 +1354,12 @@ def part_link_loss_in_progress(cx: Ctx):
                 return [(s_, t) for (k, s_, t) in rig.events if k == "start" and s_ >= base]
 
         want = [(s_, 6 * 256 + 31 + 2 * i) for i, s_ in enumerate(systems)]
-        limit = time.time() + 1.0
-        while time.time() < limit and len(delivered_h()) < len(want):
-            time.sleep(0.005)
+        end = time.monotonic() + 0.3  # an opportunity for a second dispatcher, not an assertion: nothing is concluded from its expiry
+        while time.monotonic() < end and len(delivered_h()) < len(want):
+            time.sleep(0.002)
         gate.set()
-        limit = time.time() + 2.0
-        while time.time() < limit and len(delivered_h()) < len(want):
-            time.sleep(0.005)
         rig.block_first = None
-        rig.quiesce(limit=1.0)
+        rig.quiesce()  # everything that was queued has been dispatched now, whatever became of it
         got = delivered_h()
         with rig.c.lock:
             after = [(b.header.s_type.name, b.header.system) for b in rig.c.frames[n0:]]
@@ -1286,28 +1390,22 @@ def part_link_loss_in_progress(cx: Ctx):
 
         t = threading.Thread(target=call, daemon=True)
         t.start()
-        limit = time.time() + 2
-        while time.time() < limit and not rig.c.data_systems():
-            time.sleep(0.002)
+        wait_sent(rig)
         wire = rig.c.data_systems()
         if not wire:
             res.violate("c06-request-hang", "request never reached the wire", {"part": "link-loss"})
             continue
         k = wire[0][0]
-        limit = time.time() + 2
-        while time.time() < limit and "sent" not in rig.tap.pc.values():  # the caller is inside response_queue.get() now
-            time.sleep(0.002)
-        time.sleep(0.01)
+        wait_sent(rig)
         rig.disconnect()
-        time.sleep(0.02)
         case = {"part": "link-loss", "variant": variant, "system": k}
         if not rig.connect():
             res.violate("c06-reconnect-select", "endpoint could not be selected again after the link was lost with a request outstanding", case)
             continue
         if variant == "reply-after-reconnect":
             rig.feed(data_msg(k, 1, 4))
-        t.join(2.5)
-        rig.quiesce(limit=1.0)
+        finish(rig, t)
+        rig.quiesce()
         with rig.ev_lock:
             starts = [(s_, tg) for (kk, s_, tg) in rig.events if kk == "start"]
         r = out.get("r")
@@ -1347,14 +1445,12 @@ def part_lost_wakeup(cx: Ctx):
         rig = Rig(t3=1.2)
         if not rig.connect():
             return
-        rig.quiesce(limit=0.5)
+        rig.quiesce()
         c0 = rig.p._system_counter
         out = {}
         t = threading.Thread(target=lambda: out.update(r=rig.p.send_and_waitfor_response(Fn(1, 1))), daemon=True)
         t.start()
-        limit = time.time() + 2
-        while time.time() < limit and "sent" not in rig.tap.pc.values():
-            time.sleep(0.002)
+        wait_sent(rig)
         wire = rig.c.data_systems()
         if not wire:
             res.violate("c06-request-hang", "request never reached the wire", {"part": "lost-wakeup"})
@@ -1366,10 +1462,10 @@ def part_lost_wakeup(cx: Ctx):
         rig.feed(data_msg(910001, 5, 1))  # an earlier unsolicited message: after it the dispatcher finds the queue empty
         t0 = time.time()
         if variant == "reply":
-            t.join(3.0)
+            finish(rig, t)
         else:
-            limit = time.time() + 1.2
-            while time.time() < limit:
+            limit = time.time() + deadline()
+            while waiting(limit):
                 with rig.ev_lock:
                     if sum(1 for e in rig.events if e[0] == "start") >= 2:
                         break
@@ -1380,8 +1476,8 @@ def part_lost_wakeup(cx: Ctx):
         rig.feed(data_msg(910003, 10, 1))  # later traffic (would flush a stuck block)
         if variant != "reply":
             rig.feed(data_msg(k, 1, 2))
-            t.join(3.0)
-        rig.quiesce(limit=1.0)
+            finish(rig, t)
+        rig.quiesce()
         with rig.ev_lock:
             starts = [(s_, tg) for (kk, s_, tg) in rig.events if kk == "start"]
         r = out.get("r")
@@ -1441,24 +1537,22 @@ def part_bad_frame_in_the_middle(cx: Ctx):
         out = {}
         t = threading.Thread(target=lambda: out.update(r=rig.p.send_and_waitfor_response(Fn(1, 1))), daemon=True)
         t.start()
-        limit = time.time() + 2
-        while time.time() < limit and "sent" not in rig.tap.pc.values():
-            time.sleep(0.002)
+        wait_sent(rig)
         wire = rig.c.data_systems()
         if not wire:
             res.violate("c06-request-hang", "request never reached the wire", {"part": "bad-frame"})
             continue
         k = wire[0][0]
         rig.feed(data_msg(920001, 6, 11))  # before the disturbance
-        time.sleep(0.03)
+        rig.quiesce()
         if variant in bad_frames:
             rig.c.on_data({"source": rig.c, "data": bad_frames[variant]})
-            time.sleep(0.05)
+            rig.quiesce()
         # what follows
         rig.feed(data_msg(k, 1, 2))
         rig.feed(data_msg(920002, 6, 13))
         rig.feed(data_msg(920003, 6, 15))
-        t.join(2.5)
+        finish(rig, t)
         out2 = {}
         n_before = len(rig.c.data_systems())
 
@@ -1467,14 +1561,14 @@ def part_bad_frame_in_the_middle(cx: Ctx):
 
         t2 = threading.Thread(target=later, daemon=True)
         t2.start()
-        limit = time.time() + 1.0
-        while time.time() < limit and len(rig.c.data_systems()) <= n_before:
+        limit = time.time() + deadline()
+        while waiting(limit) and len(rig.c.data_systems()) <= n_before:
             time.sleep(0.003)
         wire2 = rig.c.data_systems()
         if len(wire2) > n_before:
             rig.feed(data_msg(wire2[-1][0], 1, 4))
-        t2.join(2.5)
-        rig.quiesce(limit=1.0)
+        finish(rig, t2)
+        rig.quiesce()
         with rig.ev_lock:
             starts = [(s_, tg) for (kk, s_, tg) in rig.events if kk == "start" and s_ >= 920000]
         r, r2 = out.get("r"), out2.get("r")
@@ -1530,9 +1624,7 @@ def part_reply_functions(cx: Ctx):
             t0 = time.time()
             t.start()
             if transport == "hsms":
-                limit = time.time() + 2
-                while time.time() < limit and "sent" not in rig.tap.pc.values():
-                    time.sleep(0.002)
+                wait_sent(rig)
                 wire = rig.c.data_systems()
                 k = wire[0][0] if wire else None
                 if k is not None:
@@ -1540,17 +1632,15 @@ def part_reply_functions(cx: Ctx):
             else:
                 blk = rig.take_outgoing_block()
                 k = None if blk is None else blk.header.system
-                limit = time.time() + 1
-                while time.time() < limit and "sent" not in rig.tap.pc.values():
-                    time.sleep(0.002)
+                wait_sent(rig)
                 if k is not None:
                     rig.feed(k, 1, fn_reply)
             if k is None:
                 res.violate("c06-request-hang", "request never reached the wire", {"part": "reply-functions", "transport": transport})
                 continue
-            t.join(3.0)
+            finish(rig, t)
             took = time.time() - t0
-            rig.quiesce(limit=1.0)
+            rig.quiesce()
             with rig.ev_lock:
                 starts = [(s_, tg) for (kk, s_, tg) in rig.events if kk == "start"]
             r = out.get("r")
@@ -1581,14 +1671,16 @@ def part_reply_functions(cx: Ctx):
 
 
 # ---------------------------------------------------------------------------------------------- (x) isolation of endpoints, bursts - WITHOUT the tap
-class PlainRig:
+class PlainRig(Quiet):
     """real HsmsProtocol over MemConn with NOTHING replaced inside the protocol (the tap swaps queues and would hide sharing / bounds)"""
 
-    def __init__(self, name, t3=2.0):
+    def __init__(self, name, t3=120.0):
         self.name = name
         self.settings = Settings(connect_mode=secsgem.hsms.HsmsConnectMode.PASSIVE, t3=t3)
         self.p = secsgem.hsms.HsmsProtocol(self.settings)
+        self.p._linktest_timeout = 10 ** 6
         self.c = self.p._connection
+        self.watch_threads()
         self.events = []
         self.ev_lock = threading.Lock()
         self.gate = None  # (system, Event, max wait): the handler of that message blocks
@@ -1600,7 +1692,7 @@ class PlainRig:
             self.events.append((h.system, tag_of(h)))
         g = self.gate
         if g is not None and g[0] == h.system:
-            g[1].wait(g[2])
+            g[1].wait(120)
 
     feed = Rig.feed
     connect = Rig.connect
@@ -1663,8 +1755,8 @@ def part_isolation_and_burst(cx: Ctx):
     tb = threading.Thread(target=request, args=(b, "B", 3), daemon=True)
     ta.start()
     tb.start()
-    limit = time.time() + 2
-    while time.time() < limit and not (a.c.data_systems() and b.c.data_systems()):
+    limit = time.time() + deadline()
+    while waiting(limit) and not (a.c.data_systems() and b.c.data_systems()):
         time.sleep(0.002)
     if not (a.c.data_systems() and b.c.data_systems()):
         res.violate("c06-request-hang", "request never reached the wire", {"part": "isolation"})
@@ -1673,22 +1765,21 @@ def part_isolation_and_burst(cx: Ctx):
     # both applications go into a callback, then traffic for both arrives interleaved (primaries and the two replies)
     a.feed(data_msg(930000, 6, 11))
     b.feed(data_msg(940000, 6, 11))
-    time.sleep(0.05)
+    wait_until(lambda: a.got() and b.got())  # both applications are inside their callback now
     for i in range(1, 6):
         a.feed(data_msg(930000 + i, 6, 11 + 2 * i))
         b.feed(data_msg(940000 + i, 6, 11 + 2 * i))
         if i == 2:
             a.feed(data_msg(ka, 1, 2))
             b.feed(data_msg(kb, 1, 4))
-    time.sleep(0.1)
+    wait_until(lambda: all(not r_.p._thread._receiver_thread_trigger.is_set() and len(r_.p._receive_buffer) == 0 for r_ in (a, b)))
     ga.set()
     gb.set()
-    ta.join(3.0)
-    tb.join(3.0)
-    limit = time.time() + 2
-    while time.time() < limit and (len(a.got()) < 6 or len(b.got()) < 6):
-        time.sleep(0.005)
-    time.sleep(0.05)
+    join(ta)
+    join(tb)
+    wait_until(lambda: len(a.got()) >= 6 and len(b.got()) >= 6)
+    a.quiesce()
+    b.quiesce()
     want_a = [(930000 + i, 6 * 256 + 11 + 2 * i) for i in range(6)]
     want_b = [(940000 + i, 6 * 256 + 11 + 2 * i) for i in range(6)]
     ra, rb = outs.get("A"), outs.get("B")
@@ -1714,13 +1805,11 @@ def part_isolation_and_burst(cx: Ctx):
         r.gate = (950000, g, 5.0)
         for i in range(n):
             r.feed(data_msg(950000 + i, 6, 1 + 2 * (i % 100)))
-        time.sleep(0.15)
+        wait_until(lambda: not r.p._thread._receiver_thread_trigger.is_set() and len(r.p._receive_buffer) == 0)  # all taken off the line
         g.set()
         want = [(950000 + i, 6 * 256 + 1 + 2 * (i % 100)) for i in range(n)]
-        limit = time.time() + 4
-        while time.time() < limit and len(r.got()) < n:
-            time.sleep(0.005)
-        time.sleep(0.05)
+        wait_until(lambda: len(r.got()) >= n)
+        r.quiesce()
         got = r.got()
         res.count(("burst", n), sample={"part": "burst", "messages": n, "delivered": len(got)})
         res.bump("burst_behind_a_busy_handler", f"{n} messages -> {len(got)} delivered")
@@ -1773,14 +1862,15 @@ def part_static_tie(cx: Ctx):
 
 
 def probe_patched() -> bool:
+    """does a dispatcher thread end after stop()?  (one generous bounded wait, once per run: the code as it is never ends it)"""
     rig = Rig(t3=1.0)
     if not rig.connect():
         return False
     rig.disconnect()
     rig.connect()
-    limit = time.time() + 0.6
-    while time.time() < limit and rig.tap.live_dispatchers() > 1:
-        time.sleep(0.01)
+    end = time.monotonic() + 3.0
+    while time.monotonic() < end and rig.tap.live_dispatchers() > 1:
+        time.sleep(0.005)
     return rig.tap.live_dispatchers() <= 1
 
 
@@ -1810,30 +1900,52 @@ def main():
         return only is None or part in only
 
     try:
+        _t = time.time()
         part_static_tie(cx)
+        res.bump("part_wall_s", "part_static_tie", round(time.time() - _t, 1))
         if want("counter"):
+            _t = time.time()
             part_counter(cx)
+            res.bump("part_wall_s", "part_counter", round(time.time() - _t, 1))
         if want("request-schedule"):
+            _t = time.time()
             part_request_schedules(cx)
+            res.bump("part_wall_s", "part_request_schedules", round(time.time() - _t, 1))
         if want("scripted"):
+            _t = time.time()
             part_scripted(cx)
+            res.bump("part_wall_s", "part_scripted", round(time.time() - _t, 1))
         if replay_reconnects:
             for cycles, cuts in replay_reconnects:  # exactly the recorded scenarios
                 reconnect_scenario(cx, cycles, cuts)
         elif want("reconnect") or want("unsolicited"):
+            _t = time.time()
             part_unsolicited_and_reconnect(cx)
+            res.bump("part_wall_s", "part_unsolicited_and_reconnect", round(time.time() - _t, 1))
         if want("primary"):
+            _t = time.time()
             part_primary_collision(cx)
+            res.bump("part_wall_s", "part_primary_collision", round(time.time() - _t, 1))
         if want("link-loss"):
+            _t = time.time()
             part_link_loss_in_progress(cx)
+            res.bump("part_wall_s", "part_link_loss_in_progress", round(time.time() - _t, 1))
         if want("lost-wakeup"):
+            _t = time.time()
             part_lost_wakeup(cx)
+            res.bump("part_wall_s", "part_lost_wakeup", round(time.time() - _t, 1))
         if want("bad-frame"):
+            _t = time.time()
             part_bad_frame_in_the_middle(cx)
+            res.bump("part_wall_s", "part_bad_frame_in_the_middle", round(time.time() - _t, 1))
         if want("reply-functions"):
+            _t = time.time()
             part_reply_functions(cx)
+            res.bump("part_wall_s", "part_reply_functions", round(time.time() - _t, 1))
         if want("isolation") or want("burst"):
+            _t = time.time()
             part_isolation_and_burst(cx)
+            res.bump("part_wall_s", "part_isolation_and_burst", round(time.time() - _t, 1))
         if replay_classes:
             res.violations = [v for v in res.violations if v["class"] in replay_classes]  # "does the recorded failure still fail"
     except Exception as exc:  # noqa: BLE001
@@ -1842,6 +1954,8 @@ def main():
         res.notes.append("harness exception: " + repr(exc))
         res.dump(a.out)
         os._exit(3)
+    if STALL_LOG:
+        res.notes.append(f"waits that ran into their deadline ({len(STALL_LOG)}): " + "; ".join(STALL_LOG[:12]))
     res.dump(a.out)
     sys.stdout.flush()
     os._exit(0)
